@@ -43,9 +43,24 @@ def main():
     try:
         r = sh("git -C %s apply %s" % (wt, os.path.join(d, "patch.diff")))
         if r.returncode != 0:
-            res["error"] = "patch does not apply: " + r.stderr[-500:]
-            print(res["error"])
-            return 2
+            # /repo has moved on since the seed was made (fix: / hook commits): merge the change into the new text
+            r = sh("git -C %s apply --3way %s" % (wt, os.path.join(d, "patch.diff")))
+            res["applied_with_3way_merge"] = r.returncode == 0
+        if r.returncode != 0:
+            # last resort: the tree the seed was made for (its confirmed base commit); hooks added later are then missing,
+            # which only matters for checks whose harness needs them
+            base = (meta.get("confirmed_by_coordinator") or {}).get("repo_head")
+            ok = False
+            if base:
+                sh("git -C %s reset -q --hard" % wt)
+                sh("git -C %s checkout -q --detach %s" % (wt, base))
+                r2 = sh("git -C %s apply %s" % (wt, os.path.join(d, "patch.diff")))
+                ok = r2.returncode == 0
+                res["run_on_base_commit"] = base
+            if not ok:
+                res["error"] = "patch does not apply: " + r.stderr[-500:]
+                print(res["error"])
+                return 2
         for pid in props:
             t0 = time.time()
             env = dict(os.environ, VERIF_REPO=wt, VERIF_COQ=coqcopy)
